@@ -16,7 +16,8 @@ EXTRA = {"C18-a": ["C13"], "C01-b": ["C07"], "C07-a": ["C01"], "C12-b": ["C05"],
          "C10-l": ["C03"],
          "C07-n": ["C06", "C13"],
          "C12-m": ["C06"],
-         "C10-p": ["C13", "C18"]}   # gthread cancels jobs queued behind busy threads when it stops: engine T's "queued request cancelled" / C18's "dispatched request dropped"     # at-limit request line refused only for a read boundary between CR and LF: inside C12's 2-byte band, a segmentation matter     # the gthread blocking-mode regression again: a worker-level segmentation matter (C06 real slice, C13 engine T)      # surplus workers picked by pid instead of age: only visible when the pid counter wraps (engine K)
+         "C10-p": ["C13", "C18"],
+         "C07-v": ["C01"]}     # a failed read taken for the end of the stream: worker-level failing reads live in C01's slice   # gthread cancels jobs queued behind busy threads when it stops: engine T's "queued request cancelled" / C18's "dispatched request dropped"     # at-limit request line refused only for a read boundary between CR and LF: inside C12's 2-byte band, a segmentation matter     # the gthread blocking-mode regression again: a worker-level segmentation matter (C06 real slice, C13 engine T)      # surplus workers picked by pid instead of age: only visible when the pid counter wraps (engine K)
 
 
 _baseline = {}
